@@ -170,7 +170,9 @@ def run_case(case):  # noqa: C901
         inputs = T.make_inputs(t, val)
         ev = T.NpEval(inputs)
         ref = np.asarray(ev(t))
-        if ev.excluded:
+        if ev.excluded or ev.nonfinite:
+            # the distributive law is not an IEEE identity once an intermediate overflows
+            # to inf (inf - inf = NaN): keep to valuations whose evaluation stays finite
             continue
         base = np.asarray(dageval.DagEval(inputs)(expr))
         if values.compare(base, ref, scale=ev.scale, nred=ev.nred, min_eps=ev.eps) is not None:
